@@ -186,6 +186,34 @@ func (repo *BlockRepository) Add(ctx context.Context, header *wire.BlockHeader) 
 	return nil
 }
 
+// AddNext adds a block header if its previous hash is the hash of the latest block. The check and
+// the add are done under one lock so a revert from another thread can't come between them.
+// Returns false if the header is not next.
+func (repo *BlockRepository) AddNext(ctx context.Context, header *wire.BlockHeader) (bool, error) {
+	repo.mutex.Lock()
+	defer repo.mutex.Unlock()
+
+	if len(repo.lastHeaders) == 0 ||
+		!header.PrevBlock.Equal(repo.lastHeaders[len(repo.lastHeaders)-1].BlockHash()) {
+		return false, nil
+	}
+
+	if len(repo.lastHeaders) == blocksPerKey {
+		// Save latest key
+		if err := repo.save(ctx); err != nil {
+			return false, errors.Wrap(err, "Failed to save")
+		}
+
+		// Start next key
+		repo.lastHeaders = make([]wire.BlockHeader, 0, blocksPerKey)
+	}
+
+	repo.lastHeaders = append(repo.lastHeaders, *header)
+	repo.height++
+	repo.heights[*header.BlockHash()] = repo.height
+	return true, nil
+}
+
 // Return the block hash for the specified height
 func (repo *BlockRepository) LastHeight() int {
 	repo.mutex.Lock()
